@@ -936,3 +936,190 @@ class Sess:
             invs.append(BAD if s == "OFFGRID" else s)
         q = {"val": worst, "cfgs": cfgs, "inv": invs}
         return self._finish("sample", a, v, v, q=q)
+
+
+# ----------------------------------------------------------------------------- CircuitMPS / CircuitPermMPS histories
+# The circuit threads ONE record (circ.gate_opts["info"]) through every gate and every consumer; after each call the
+# record is observed against the stored state circ._psi, and the consumer's value against the dense state.
+
+_S2 = 2 ** -0.5
+NAMED = {
+    "H": np.array([[_S2, _S2], [_S2, -_S2]], dtype=complex),
+    "X": np.array([[0, 1], [1, 0]], dtype=complex),
+    "T": np.diag([1, np.exp(0.25j * np.pi)]).astype(complex),
+    "CNOT": np.array([[1, 0, 0, 0], [0, 1, 0, 0], [0, 0, 0, 1], [0, 0, 1, 0]], dtype=complex),   # control = first qubit
+    "CZ": np.diag([1, 1, 1, -1]).astype(complex),
+    "SWAP": np.array([[1, 0, 0, 0], [0, 0, 1, 0], [0, 1, 0, 0], [0, 0, 0, 1]], dtype=complex),
+}
+
+
+class CircSess:
+    def __init__(self, rng, tid, kind, N, trunc, psi0):
+        import quimb.tensor as qtn
+
+        self.rng, self.tid, self.seq, self.recs, self.last, self.dead = rng, tid, 0, [], None, False
+        self.kind, self.N, self.trunc = kind, N, trunc
+        self.itol, self.qtol = 1e-8, 1e-8
+        kw = {"max_bond": 2} if trunc else {"cutoff": 0.0}
+        cls = getattr(qtn, kind)
+        if psi0:
+            p0 = mps_from_arrays(random_arrays(rng, N, 2, 3, "complex128"))
+            p0.normalize()
+            self.circ = cls(N, psi0=p0, **kw)
+        else:
+            self.circ = cls(N, **kw)
+        self.psi0 = bool(psi0)
+        self.exp = self.phys().transpose(self._inv())      # expected state, logical qubit order
+        self.exact_state = True
+
+    # -- what is looked at
+    @property
+    def info(self):
+        return self.circ.gate_opts["info"]
+
+    def qubits(self):
+        return [int(q) for q in getattr(self.circ, "qubits", range(self.N))]
+
+    def _inv(self):
+        qs = self.qubits()
+        return [qs.index(q) for q in range(self.N)]
+
+    def phys(self):
+        """dense tensor of the stored MPS, axis s = physical site s"""
+        return np.asarray(self.circ._psi.to_dense()).reshape((2,) * self.N)
+
+    def emit(self, ev, args, extra=None, exc=""):
+        rec = {"tid": self.tid, "seq": self.seq, "ev": ev, "args": dict(args, z=0), "exc": exc, "obj": "circuit._psi",
+               "dtype": "complex128", "hist_tnorm": False, "circuit": self.kind}
+        try:
+            ob = observe(self.circ._psi, self.info, self.itol)
+        except Exception as ex:
+            ob = {"L": 2, "rec": [-3, -3], "isoL": [False, False], "isoR": [False, False],
+                  "flags": [{"claim": False, "iso": False, "kind": "N"}] * 2}
+            rec["exc"] = (exc + "|" if exc else "") + "observe:" + type(ex).__name__
+            self.dead = True
+        rec.update(ob)
+        if extra:
+            rec.update(extra)
+        rec.setdefault("q", {"z": 0})
+        self.recs.append(rec)
+        self.seq += 1
+        self.last = rec
+        return rec
+
+    def _after(self, ev, args, expect_phys, q=None):
+        ex = {}
+        try:
+            post = self.phys()
+            if not np.all(np.isfinite(post)):
+                self.dead = True
+                ex["dstate"] = 999998
+            elif expect_phys is not None:
+                ex["dstate"] = qdiff(post, expect_phys, self.qtol)
+        except Exception:
+            self.dead = True
+            ex["dstate"] = 999990
+        if q is not None:
+            ex["q"] = dict(q, z=0)
+        return self.emit(ev, args, ex)
+
+    def init(self):
+        return self.emit("circ_init", {"N": self.N, "trunc": self.trunc, "psi0": self.psi0})
+
+    def do(self, op):
+        return getattr(self, "op_" + op["ev"])(op)
+
+    # -- gates
+    def op_circ_gate(self, op):
+        where = [int(w) for w in op["where"]]
+        name = op.get("name", "raw")
+        a = {"n": len(where), "first": where[0], "last": where[-1], "name": name, "adjacent": bool(len(where) == 1 or max(where) - min(where) == len(where) - 1)}
+        U = NAMED[name] if name != "raw" else rand_unitary(self.rng, 2 ** len(where), True)
+        try:
+            if name == "raw":
+                self.circ.apply_gate_raw(U, tuple(where))
+            else:
+                self.circ.apply_gate(name, *where)
+        except Exception as ex:
+            return self.emit("circ_gate", a, None, exc=type(ex).__name__)
+        if self.trunc and len(where) > 1:
+            self.exact_state = False
+        expect = None
+        if self.exact_state:
+            self.exp = apply_op_dense(self.exp.reshape(-1), [2] * self.N, U, where).reshape((2,) * self.N)
+            expect = self.exp.transpose(self.qubits())
+        return self._after("circ_gate", a, expect)
+
+    def op_circ_copy(self, op):
+        try:
+            self.circ = self.circ.copy()
+        except Exception as ex:
+            return self.emit("circ_copy", {}, None, exc=type(ex).__name__)
+        return self._after("circ_copy", {}, None)
+
+    # -- consumers (none of them may change the stored state)
+    def _consume(self, ev, a, fn):
+        P = self.phys()
+        L = P.transpose(self._inv())
+        try:
+            q = fn(P, L)
+        except Exception as ex:
+            return self.emit(ev, a, None, exc=type(ex).__name__)
+        return self._after(ev, a, P, q=q)
+
+    def op_circ_sample(self, op):
+        C = int(op.get("C", 2))
+        seed = int(self.rng.integers(1 << 30))
+
+        def fn(P, L):
+            n2 = float(np.vdot(P, P).real)
+            ok = 1
+            for b in self.circ.sample(C, seed=seed):
+                if len(b) != self.N or abs(L[tuple(int(c) for c in b)]) ** 2 / n2 < 1e-12:
+                    ok = 0
+            return {"p_ok": ok}
+        return self._consume("circ_sample", {"C": C}, fn)
+
+    def op_circ_local_expectation(self, op):
+        where = [int(w) for w in op["where"]]
+        normalized = bool(op.get("normalized", False))
+        G = rand_op(self.rng, 2 ** len(where), True)
+
+        def fn(P, L):
+            v = L.reshape(-1)
+            ref = np.vdot(v, apply_op_dense(v, [2] * self.N, G, where))
+            n2 = float(np.vdot(v, v).real)
+            if normalized:
+                ref = ref / n2
+            got = self.circ.local_expectation(G, where[0] if len(where) == 1 else tuple(where), normalized=normalized)
+            sc = 1.0 if normalized else max(1.0, n2)
+            return {"val": qdiff(got / sc, ref / sc, self.qtol)}
+        return self._consume("circ_local_expectation", {"n": len(where), "first": where[0], "last": where[-1], "normalized": normalized}, fn)
+
+    def op_circ_fidelity(self, op):
+        err = bool(op.get("error", False))
+
+        def fn(P, L):
+            n2 = float(np.vdot(P, P).real)
+            got = self.circ.error_estimate() if err else self.circ.fidelity_estimate()
+            return {"val": qdiff(got, (1 - n2) if err else n2, self.qtol)}
+        return self._consume("circ_fidelity", {"error": err}, fn)
+
+    def op_circ_amplitude(self, op):
+        b = "".join(str(int(x)) for x in self.rng.integers(0, 2, self.N))
+
+        def fn(P, L):
+            return {"val": qdiff(self.circ.amplitude(b), L[tuple(int(c) for c in b)], self.qtol)}
+        return self._consume("circ_amplitude", {"b": b}, fn)
+
+    def op_circ_to_dense(self, op):
+        via = op.get("via", "to_dense")
+
+        def fn(P, L):
+            if via == "to_dense":
+                got = np.asarray(self.circ.to_dense()).reshape(-1)
+            else:   # the psi accessor: a copy labelled in logical qubit order
+                psi = self.circ.psi if via == "psi" else self.circ.get_psi()
+                got = np.asarray(psi.to_dense([psi.site_ind(i) for i in range(self.N)])).reshape(-1)
+            return {"val": qdiff(got, L.reshape(-1), self.qtol)}
+        return self._consume("circ_to_dense", {"via": via}, fn)
